@@ -180,6 +180,17 @@ def d3_pop(facts, rep):
         be = edges_where(fn, bit)
         ok3 = all(dominated_by_edges(fn, a[0], be)[0] for a in ad)
         rep.ob('D3', 'K4', fn, 'the slot is consumed only when its item-present bit is set', ok3, 'an invalid (never constructed) slot can be moved from')
+        # the finalizer is what advances the lane AND retires an exhausted page (it gets the page when the slot is the last one of
+        # its page).  Every consumed ticket - valid item or invalid entry - must go through it: an exit of pop() that bypasses
+        # the finalizer, or a direct store to head_counter, leaves head_page on an exhausted page when the skipped slot was the
+        # last of its page, and later pops of that lane read one page behind.
+        okf, witf = every_path_passes(fn, 'entry', lambda p, e: p == fpos)
+        rep.ob('D3', 'K3', fn, 'every consumed ticket - item or invalid entry - is finalised by the pop finalizer', okf,
+               'a path through pop() returns without the finalizer: ' + witf, key_extra='finalizer-all-paths')
+        direct = ops_on(fn, 'head_counter', ('store', 'rmw', 'cas'))
+        rep.ob('D3', 'K11', fn, 'pop() advances head_counter only through the finalizer', not direct,
+               'head_counter written directly at line(s) %s: the page bookkeeping of the finalizer is bypassed' % [o['ln'] for _, o in direct],
+               key_extra='no-direct-advance')
         w = [c for c in calls_named(fn, ('spin_wait_until_eq',)) if c[2].get('a') and last_member(fn, c[2]['a'][0]) == 'head_counter']
         rep.ob('D3', 'K4', fn, 'a popper waits for its turn on the lane (head_counter == k) before touching the page',
                bool(w) and all(every_path_passes(fn, 'entry', lambda p, e: p in set(x[0] for x in w), end=fpos)[0] for _ in [0]),
@@ -195,7 +206,7 @@ def d3_pop(facts, rep):
         rep.ob('D3', 'K5', fn, 'the head page is unlinked under page_mutex', ok2, 'head_page stored outside page_mutex')
         ok3 = bool(st) and bool(hp) and all(not fn.can_reach(sp, pp) for sp, _ in st for pp, _ in hp)
         rep.ob('D3', 'K4', fn, 'head_counter is advanced after the page was unlinked', ok3, 'the next popper can see the stale head page')
-    rep.floor('D3', 6, 'pop finalisation')
+    rep.floor('D3', 8, 'pop finalisation')
 
 
 def d4_pages(facts, rep):
